@@ -191,6 +191,13 @@ var c07Corpus = []string{
 	"func f() { ) ; a }", "a ; \"", "a a", "a; )", "if a { ; \"", "{1:2} or a",
 	"if a { b ; \" }", "for a { ) ; b }", "try { ) \n a } except { }", "a ; ) ; b", "a\n)\nb",
 	"func f() { a ; ) ; b }", "sink s kindmatch [\"a\"] { ) \n b }", "mutex m { ; \" }",
+	// block-start brace in null-denotation position inside a guard expression (nameless node)
+	"if [ { { a } ] { }", "for [ { { a } ] { }", "if ({ { a }) { }", "if a + { { b } { }", "if f({ { a }) { }",
+	"if ({1:2} == x) { }", "if [{1:2}] { }", "for x in [ { { a } ] { }", "if a { } elif ( { { b } ) { }",
+	// errors inside otherwise / finally clauses
+	"try { } finally\nb := 2", "try { a } finally { \"", "try { a } otherwise { ) }", "try { a } finally { ) }",
+	"try { a } otherwise { b } finally { ; \" }", "try { a } finally", "try { a } otherwise", "try { a } finally { b",
+	"try { a } otherwise { b ; ) ; c } finally { d }", "try { a } except { b } finally { c ) }",
 	// odd corners read off the parser
 	"", " ", "a[\"", "a[/*", "a[\"\n\"", "a[", "a[1", "a.\"", "a(\"", "if {a} {b}", "for {a} {b}", "if a {} elif {} {} else {}",
 	"return\n1", "return 1", "a\n[1]", "a [1]", "{1}", "{1:2, 3}", "[1 2 3]", "f(1 2,)", "let a := 1",
@@ -321,6 +328,38 @@ func c07Gen(g *Gen) {
 			sep = "\n"
 		}
 		c07Emit(g, "mutant", strings.Join(ts, sep))
+	}
+	// guards containing bracketed / parenthesised brace expressions
+	open := []string{"(", "[", "f (", "a + (", "not (", "x [", "- ("}
+	closeOf := map[string]string{"(": ")", "[": "]", "f (": ")", "a + (": ")", "not (": ")", "x [": "]", "- (": ")"}
+	inner := []string{"{ a }", "{ { a }", "{ { a } }", "{ 1 : 2 }", "{ }", "{ { } }", "{ { a ; b }", "{", "{ {", "a , { { b }", "{ { a } , c"}
+	heads := []string{"if", "for", "for x in", "if a { } elif"}
+	tails := []string{"{ }", "{ b }", "{ b } else { c }", ""}
+	for _, hd := range heads {
+		for _, o := range open {
+			for _, in := range inner {
+				for _, tl := range tails {
+					c07Emit(g, "guardbrace", hd+" "+o+" "+in+" "+closeOf[o]+" "+tl)
+				}
+			}
+		}
+		for _, in := range inner {
+			c07Emit(g, "guardbrace", hd+" a + "+in+" { }")
+			c07Emit(g, "guardbrace", hd+" "+in+" { }")
+			c07Emit(g, "guardbrace", hd+" a == "+in+" and b { c }")
+		}
+	}
+	// errors inside except / otherwise / finally clauses
+	bodies := []string{"{ }", "{ b }", "{ \"", "{ ) }", "{ b ; ) }", "{ b ; \" }", "{ b ) c }", "{ b", "{", "", "\nb := 2", "{ b } }", "{ if }", "{ b \n ) \n c }", "( )"}
+	clauses := []string{"finally", "otherwise", "except", "except \"e\" as x", "otherwise { o } finally", "except { e } otherwise", "except { e } finally"}
+	trys := []string{"try { }", "try { a }", "try { a ; b }"}
+	for _, t := range trys {
+		for _, c := range clauses {
+			for _, b := range bodies {
+				c07Emit(g, "tryclause", t+" "+c+" "+b)
+				c07Emit(g, "tryclause", t+" "+c+" "+b+" \n d := 1")
+			}
+		}
 	}
 	// invalid UTF-8, control characters, random token soup
 	junk := []string{"\xff", "\xc0", "\x80", "\xe2\x82", "\xf0\x9f", "\x00", "\x01", "\x1b", "\x7f", " ", "\xef\xbb\xbf", "é", "\\", "'", "\"", "\r", "\t"}
